@@ -72,11 +72,11 @@ type View struct {
 	DesList  []int
 	// Claimed: cached pods that belong to the set by the reference rule
 	// (ordinal -> pod). Adopted: subset that was adopted in this reconcile.
-	Claimed  map[int]*v1.Pod
-	Adopted  map[string]bool
+	Claimed map[int]*v1.Pod
+	Adopted map[string]bool
 	// Orphans: unowned, live, matching, well-named pods of the snapshot whose adoption did not go through and was not
 	// answered NotFound (then the pod is gone and the ordinal vacant): they hold their ordinal all the same
-	Orphans map[int]*v1.Pod
+	Orphans  map[int]*v1.Pod
 	Released map[string]bool
 	// revisions visible to the set before the reconcile, by name
 	Revs map[string]*appsv1.ControllerRevision
